@@ -32,7 +32,7 @@ UNIT = dict(
     replay=_replay,
     trusted=['floor() is modelled by truncation and correction (exact for |x| < 2^52)', 'std::ostream formatting is a token model: every operand of a << chain is recorded as a token (string, character, number with the width/fill in force); the digits libstdc++ prints for a number are not modelled',
              'SymbolString::getDataSize / dataAt are the real inline bodies of symbol.h'],
-    defines=[(DT_H, ['NULL_VALUE', 'ADJ', 'BCD', 'REV', 'SIG', 'IGN', 'FIX', 'REQ', 'HCD', 'EXP', 'DAY', 'NUM', 'DAT', 'SPE', 'DUP', 'REZ', 'REMAIN_LEN'])],
+    defines=[(DT_H, ['NULL_VALUE', 'ADJ', 'BCD', 'REV', 'SIG', 'IGN', 'FIX', 'REQ', 'HCD', 'EXP', 'DAY', 'NUM', 'DAT', 'SPE', 'DUP', 'REZ', 'REMAIN_LEN', 'LENGTH_SEPARATOR'])],
     enums=[('src/lib/ebus/result.h', 'result_t'), (SYM_H, 'PredefinedSymbol', 'PredefinedSymbol', 'symbol_t'), (DT_H, 'OutputFormat', 'OutputFormatE')],
     structs=[dict(file=SYM_H, classes=['SymbolString'], cname='SymbolString', member_types={'m_data': 'vsym'}, is_self=False),
              dict(parts=[(DT_H, 'DataType'), (DT_H, 'DateTimeDataType')], cname='DTT', skip=('m_id',)),
@@ -51,6 +51,18 @@ UNIT = dict(
         dict(file=DT_CPP, name='StringDataType::readSymbols', cname='STT_readSymbols', self='STT', cfg=dict(own_methods={'hasFlag': ('STT_hasFlag', 'self')}),
              pre_subs=[(r'<< \(m_isHex \? hex : dec\);', '; if (m_isHex) { *output << hex; } else { *output << dec; }', 1)],
              stream_out=dict(vars=['output'], min=6)),
+        dict(_inl, name='isIgnored', cname='DataType_isIgnored', static=True),
+        dict(file=SYM_H, inline_class='SymbolString', self='SymbolString', name='dataAt', sig='(size_t index)', nth=1, cname='SymbolString_dataAt_nc',
+             cfg=dict(methods={'size': 'vsym_size', 'resize': 'vsym_resize'}, index=[(r'^m_data$', 'vsym_ref')], ref_returns=['vsym_ref', 'SymbolString_dataAt_nc'], members={'m_data', 'm_isMaster'})),
+        dict(file=DT_CPP, name='DateTimeDataType::writeSymbols', cname='DTT_writeSymbols', self='DTT',
+             cfg=dict(methods={'dataAt': 'SymbolString_dataAt_nc', 'getDataSize': 'SymbolString_getDataSize'}, ref_returns=['SymbolString_dataAt_nc'],
+                      own_methods={'hasFlag': ('DataType_hasFlag', 'self'), 'isIgnored': ('DataType_isIgnored', 'self')}, type_map={'istringstream': 'struct iss'}),
+             pre_subs=[(r'string token;', 'int token = -1;', 1),
+                       (r"input->eof\(\) \|\| !getline\(\*input, token, m_hasTime && i == 2 \? ' ' : '\.'\)", 'env_eof(input) || !env_getline(input, &token)', 1),
+                       (r'input->eof\(\) \|\| !getline\(\*input, token, LENGTH_SEPARATOR\)', 'env_eof(input) || !env_getline(input, &token)', 1),
+                       (r'token == NULL_VALUE', 'env_tok_null(input, token)', 2),
+                       (r'parseInt\(token\.c_str\(\), 10, 0, 2099, &result\)', 'env_tok_int(input, token, 0, 2099, &result)', 1),
+                       (r'parseInt\(token\.c_str\(\), 10, 0, 59, &result\)', 'env_tok_int(input, token, 0, 59, &result)', 1)]),
         dict(file=DT_CPP, name='DateTimeDataType::readSymbols', cname='DTT_readSymbols', self='DTT',
              stream_out=dict(vars=['output'], str_macros=('NULL_VALUE',), min=15)),
     ],
@@ -70,3 +82,7 @@ R('hexstr', 'h_hexstr', None, unwind=8, defines=_D, cost=20)
 R('charstr', 'h_charstr', None, unwind=8, defines=_D, cost=20)
 for _n in ('min', 'ttm', 'tth', 'ttq', 'bti', 'hti', 'vti', 'btm', 'htm', 'vtm', 'bda', 'bda3', 'hda', 'hda3'):
     R(_n, 'h_' + _n, None, unwind=6, defines=_D, cost=10)
+for _n in ('bti', 'hti', 'vti', 'btm', 'htm', 'vtm', 'min', 'ttm', 'tth', 'ttq', 'bda', 'bda3', 'hda', 'hda3', 'bdz'):
+    R('rt_' + _n, 'h_rt_' + _n, None, unwind=14, defines=_D, cost=20, props=('C06', 'C20'))
+R('rt_day', 'h_rt_day', None, unwind=14, defines=_D, cost=200, timeout=1800, props=('C06', 'C20'))
+R('rt_dtm', 'h_rt_dtm', None, unwind=14, defines=_D, cost=600, timeout=2400, props=('C06', 'C20'), tier='thorough')
